@@ -8,12 +8,7 @@ import time
 sys.path.insert(0, os.path.dirname(os.path.abspath(__file__)))
 import tlc
 
-# (module, cfg, kwargs) of every TLC run a *quick* check needs
-WARM = [
-    ('Filters', 'Filters_pairs.cfg', dict(workers=1)),
-    ('Filters', 'Filters_groups.cfg', dict(workers=1)),
-    ('NnxFilters', 'NnxFilters_quick.cfg', dict(workers=1)),
-]
+import cfgs
 
 
 def main():
@@ -27,13 +22,9 @@ def main():
   os.makedirs(tlc.CACHE, exist_ok=True)
   t0 = time.time()
   bad = 0
-  try:
-    import warm_extra
-    warm = WARM + list(warm_extra.WARM)
-  except ImportError:
-    warm = WARM
+  warm = cfgs.warm_quick()
   with cf.ThreadPoolExecutor(max_workers=6) as ex:
-    futs = {ex.submit(tlc.run, m, c, **kw): (m, c) for m, c, kw in warm}
+    futs = {ex.submit(tlc.run, m, c, **kw): (m, c.splitlines()[0][:40] if '\n' in c else c) for m, c, kw in warm}
     for f in cf.as_completed(futs):
       m, c = futs[f]
       try:
